@@ -143,6 +143,16 @@ def run(tier):
             names[int(p[1])] = p[4]
             if "rc=0" not in ln or "MONITOR" in ln:
                 failures.append({"sig": "sem:serial-build-fails", "text": ln, "rec": None})
+    if r.returncode != 0 and ("Sanitizer" in r.stderr or "runtime error" in r.stderr):
+        # the OpenMP-free build itself dies on one of the inputs: that is a verdict (the alignment of that input is not the same
+        # as anything), reported with the sanitizer's signature; the schedule exploration has nothing to compare with
+        rep = r.stderr.split("\n")
+        done = sorted(names.values())
+        viol = [{"sig": vp.crash_signature("exit", rep) + "@serial-build", "count": 1,
+                 "example": {"id": 0, "text": "the OpenMP-free build crashes while computing the reference alignments (after %d of the inputs): %s"
+                                              % (len(done), " / ".join(l.strip() for l in rep[:8])[:600]), "extra": None}}]
+        return vp.finish(PROP, tier, t0, [], viol, [], [], {"states": 1, "transitions": 1, "traces_validated_against_impl": 0,
+                                                            "samples": ["reference run crashed"], "exhaustive": False}, ASSUMPTIONS)
     if r.returncode != 0 or not refs:
         errors.append("reference run failed: rc=%s %s" % (r.returncode, r.stderr[-400:]))
         return vp.finish(PROP, tier, t0, [], [], [], [], {"states": 1, "transitions": 1, "traces_validated_against_impl": 0,
